@@ -11,7 +11,7 @@ A history is a list of `edit f` (any function on the tree of analysis inputs) an
 namespace Cppcheck.Cache
 open Cppcheck.Wire
 
-variable {H S : Type} [DecidableEq H]
+variable {H S F : Type} [DecidableEq H]
 
 /-! ## the property, with the hypotheses the proof needs -/
 
@@ -21,39 +21,28 @@ variable {H S : Type} [DecidableEq H]
     * `henc`  on the inputs the history analyses the hash data determines the analysis input
               (path, non-comment tokens with full locations, header names and tokens),
     * `hmac`  no suppression decision depends on the macro names of a finding (they are not stored in the cache),
-    * `hmap`  in every run each listed file is looked up in its own line of files.txt. -/
-theorem history_transparent_partial (W : World H S) (t0 : Tree) (evs : List Event)
+    * `hmap`  in every run each listed file is looked up in its own line of files.txt,
+    * `hsum`  no analysis result of the history depends on the function-return summaries (`*.sN`) that the run loads
+              from the build directory at its start. -/
+theorem history_transparent_partial (W : World H S F) (t0 : Tree) (evs : List Event)
     (hinj : Function.Injective W.hash)
     (henc : KeyFaithfulOn W.enc ((runsOf t0 evs).flatMap (·.2)))
     (hmac : ∀ r ∈ runsOf t0 evs, MacroFree W r.1 r.2)
-    (hmap : ∀ r ∈ runsOf t0 evs, MapOK W.lk (r.2.map (·.path))) :
-    execCached W [] t0 evs = execFresh W t0 evs :=
-  exec_spec W _ hinj henc evs [] t0 (inv_empty W _)
-    (fun r hr => ⟨fun i hi => List.mem_flatMap.mpr ⟨r, hr, hi⟩, hmac r hr, hmap r hr⟩)
+    (hmap : ∀ r ∈ runsOf t0 evs, MapOK W.lk (r.2.map (·.path)))
+    (hsum : ∀ r ∈ cachedRuns W ([], []) t0 evs, SummFree W r.1 r.2) :
+    execCached W ([], []) t0 evs = execFresh W t0 evs :=
+  exec_spec W _ hinj henc evs ([], []) t0 (inv_empty W _)
+    (fun r hr => ⟨fun _ hi => List.mem_flatMap.mpr ⟨r, hr, hi⟩, hmac r hr, hmap r hr⟩) hsum
 
 /-- the per-file findings alone do not depend on the file-to-cache-file mapping -/
-theorem history_transparent_perFile_partial (W : World H S) (t0 : Tree) (evs : List Event)
+theorem history_transparent_perFile_partial (W : World H S F) (t0 : Tree) (evs : List Event)
     (hinj : Function.Injective W.hash)
     (henc : KeyFaithfulOn W.enc ((runsOf t0 evs).flatMap (·.2)))
-    (hmac : ∀ r ∈ runsOf t0 evs, MacroFree W r.1 r.2) :
-    (execCached W [] t0 evs).map (·.perFile) = (execFresh W t0 evs).map (·.perFile) := by
-  suffices h : ∀ (evs : List Event) (bd : BuildDir H S) (t : Tree) (L : List FileInput), KeyFaithfulOn W.enc L → Inv W L bd →
-      (∀ r ∈ runsOf t evs, (∀ i ∈ r.2, i ∈ L) ∧ MacroFree W r.1 r.2) →
-      (execCached W bd t evs).map (·.perFile) = (execFresh W t evs).map (·.perFile) from
-    h evs [] t0 _ henc (inv_empty W _) (fun r hr => ⟨fun i hi => List.mem_flatMap.mpr ⟨r, hr, hi⟩, hmac r hr⟩)
-  intro evs
-  induction evs with
-  | nil => intros; rfl
-  | cons ev r ih =>
-    intro bd t L hL hbd h
-    cases ev with
-    | edit f => simp only [execCached, execFresh]; exact ih bd (f t) L hL hbd (by simpa [runsOf] using h)
-    | run vis =>
-      simp only [runsOf, List.mem_cons, forall_eq_or_imp] at h
-      obtain ⟨⟨hin, hm⟩, hrest⟩ := h
-      obtain ⟨h1, h2⟩ := runWithCache_perFile W L vis hinj hL bd hbd t hin hm
-      simp only [execCached, execFresh, List.map_cons]
-      rw [h1, ih _ t L hL h2 hrest]
+    (hmac : ∀ r ∈ runsOf t0 evs, MacroFree W r.1 r.2)
+    (hsum : ∀ r ∈ cachedRuns W ([], []) t0 evs, SummFree W r.1 r.2) :
+    (execCached W ([], []) t0 evs).map (·.perFile) = (execFresh W t0 evs).map (·.perFile) :=
+  exec_perFile_spec W _ hinj henc evs ([], []) t0 (inv_empty W _)
+    (fun r hr => ⟨fun _ hi => List.mem_flatMap.mpr ⟨r, hr, hi⟩, hmac r hr⟩) hsum
 
 /-! ## the hypotheses are satisfiable -/
 
@@ -65,8 +54,9 @@ example :
     Function.Injective W.hash
     ∧ KeyFaithfulOn W.enc ((runsOf t0 evs).flatMap (·.2))
     ∧ (∀ r ∈ runsOf t0 evs, MacroFree W r.1 r.2)
-    ∧ (∀ r ∈ runsOf t0 evs, MapOK W.lk (r.2.map (·.path))) := by
-  refine ⟨fun _ _ h => h, by decide +kernel, by decide +kernel, by decide +kernel⟩
+    ∧ (∀ r ∈ runsOf t0 evs, MapOK W.lk (r.2.map (·.path)))
+    ∧ (∀ r ∈ cachedRuns W ([], []) t0 evs, SummFree W r.1 r.2) := by
+  refine ⟨fun _ _ h => h, by decide +kernel, by decide +kernel, by decide +kernel, by decide +kernel⟩
 
 /-! ## each hypothesis is necessary: the code at the pinned commit violates the unconditional statement -/
 
@@ -82,7 +72,7 @@ theorem linecol_mod_256_counterexample :
     let t0 : Tree := [mkInput "t.c" [("x", 1, 1), ("!", 1, 25)]]
     let evs := [Event.run showAll, .edit (shiftLines "t.c".toList 256), .run showAll]
     Function.Injective W.hash
-    ∧ ((execCached W [] t0 evs).map (·.perFile.flatten.map (·.line)) = [[1], [1]])
+    ∧ ((execCached W ([], []) t0 evs).map (·.perFile.flatten.map (·.line)) = [[1], [1]])
     ∧ ((execFresh W t0 evs).map (·.perFile.flatten.map (·.line)) = [[1], [257]]) := by
   refine ⟨fun _ _ h => h, by decide +kernel, by decide +kernel⟩
 
@@ -94,7 +84,7 @@ theorem file_boundary_counterexample :
     let t0 : Tree := [mkInput "m.c" (inc ++ [("!", 2, 1)]) [("h.h", [])]]
     let t1 : Tree := [mkInput "m.c" inc [("h.h", [("!", 2, 1)])]]
     let evs := [Event.run showAll, .edit (fun _ => t1), .run showAll]
-    ((execCached W [] t0 evs).map (·.perFile.flatten.map (·.file)) = [["m.c".toList], ["m.c".toList]])
+    ((execCached W ([], []) t0 evs).map (·.perFile.flatten.map (·.file)) = [["m.c".toList], ["m.c".toList]])
     ∧ ((execFresh W t0 evs).map (·.perFile.flatten.map (·.file)) = [["m.c".toList], ["h.h".toList]]) := by
   refine ⟨by decide +kernel, by decide +kernel⟩
 
@@ -107,7 +97,7 @@ theorem suffix_lookup_shares_cache_file : ¬ MapOK .suffixFirst ["a.c".toList, "
 theorem suffix_lookup_counterexample :
     let W := toyWorld Encoding.fixed .suffixFirst
     let t0 : Tree := [mkInput "a.c" [("?", 1, 1)], mkInput "d/a.c" [("?", 1, 1), ("x", 2, 1)]]
-    ((execCached W [] t0 [.run showAll]).map (·.whole.map (·.file)) = [[]])
+    ((execCached W ([], []) t0 [.run showAll]).map (·.whole.map (·.file)) = [[]])
     ∧ ((execFresh W t0 [.run showAll]).map (·.whole.map (·.file)) = [["a.c".toList, "d/a.c".toList]]) := by
   refine ⟨by decide +kernel, by decide +kernel⟩
 
@@ -116,7 +106,7 @@ theorem removed_file_counterexample :
     let W := toyWorld Encoding.legacy .suffixFirst
     let t0 : Tree := [mkInput "a.c" [("!", 1, 1)], mkInput "d/a.c" [("!", 1, 1)]]
     let evs := [Event.run showAll, .edit (removeFile "a.c".toList), .run showAll]
-    ((execCached W [] t0 evs).map (·.perFile.flatten.map (·.file)) = [["a.c".toList, "a.c".toList], ["a.c".toList]])
+    ((execCached W ([], []) t0 evs).map (·.perFile.flatten.map (·.file)) = [["a.c".toList, "a.c".toList], ["a.c".toList]])
     ∧ ((execFresh W t0 evs).map (·.perFile.flatten.map (·.file)) = [["a.c".toList, "d/a.c".toList], ["d/a.c".toList]]) := by
   refine ⟨by decide +kernel, by decide +kernel⟩
 
@@ -127,9 +117,20 @@ theorem macro_suppression_counterexample :
     let vis : Finding → Bool := fun f => !f.macros.contains "M".toList
     let t0 : Tree := [mkInput "m.c" [("!", 3, 7)]]
     let evs := [Event.run vis, .run vis]
-    ((execCached W [] t0 evs).map (·.perFile.flatten.length) = [0, 1])
+    ((execCached W ([], []) t0 evs).map (·.perFile.flatten.length) = [0, 1])
     ∧ ((execFresh W t0 evs).map (·.perFile.flatten.length) = [0, 0]) := by
   refine ⟨by decide +kernel, by decide +kernel⟩
+
+/-- the function-return summaries (`b.s1`) of the first run are loaded at the start of the second run and are not part of the
+    key: `z.c`, re-analysed after an edit, is analysed with `f` known to return and gets a finding a fresh run lacks -/
+theorem summaries_counterexample :
+    let W := toyWorld Encoding.fixed .exactFirst
+    let t0 : Tree := [mkInput "b.c" [("f", 1, 6)], mkInput "z.c" [("~", 2, 1)]]
+    let evs := [Event.run showAll, .edit (shiftLines "z.c".toList 1), .run showAll]
+    ((cachedRuns W ([], []) t0 evs).map (·.1) = [[], [['f']]])
+    ∧ ((execCached W ([], []) t0 evs).map (·.perFile.flatten.map (·.id)) = [[], ["leak".toList]])
+    ∧ ((execFresh W t0 evs).map (·.perFile.flatten.map (·.id)) = [[], []]) := by
+  refine ⟨by decide +kernel, by decide +kernel, by decide +kernel⟩
 
 /-! ## the proposed key composition and lookup discharge `henc` and `hmap` -/
 
@@ -181,21 +182,22 @@ example : NoSuffixPair ["a.c".toList, "d/b.c".toList, "ba.cpp".toList] ∧ ["a.c
   decide +kernel
 
 /-- **Transparency for the proposed code** (/verif/proposed/C18-hash-linecol.diff + C18-filestxt-exact.diff): only the hash
-    collisions and the macro-scoped suppressions remain as hypotheses; every edit history qualifies. -/
-theorem history_transparent_fixed (W : World H S) (t0 : Tree) (evs : List Event)
+    collisions, the macro-scoped suppressions and the return summaries remain as hypotheses; every edit history qualifies. -/
+theorem history_transparent_fixed (W : World H S F) (t0 : Tree) (evs : List Event)
     (henc : W.enc = Encoding.fixed) (hlk : W.lk = .exactFirst)
     (hinj : Function.Injective W.hash)
     (hpath : ∀ r ∈ runsOf t0 evs, ∀ i ∈ r.2, PathPrefixed i)
     (hnd : ∀ r ∈ runsOf t0 evs, (r.2.map (·.path)).Nodup)
-    (hmac : ∀ r ∈ runsOf t0 evs, MacroFree W r.1 r.2) :
-    execCached W [] t0 evs = execFresh W t0 evs := by
-  apply history_transparent_partial W t0 evs hinj _ hmac
-  · intro r hr; rw [hlk]; exact exactFirst_mapOK _ (hnd r hr)
+    (hmac : ∀ r ∈ runsOf t0 evs, MacroFree W r.1 r.2)
+    (hsum : ∀ r ∈ cachedRuns W ([], []) t0 evs, SummFree W r.1 r.2) :
+    execCached W ([], []) t0 evs = execFresh W t0 evs := by
+  refine history_transparent_partial W t0 evs hinj ?_ hmac ?_ hsum
   · rw [henc]
     apply fixed_key_faithful
     intro i hi
     obtain ⟨r, hr, hir⟩ := List.mem_flatMap.mp hi
     exact hpath r hr i hir
+  · intro r hr; rw [hlk]; exact exactFirst_mapOK _ (hnd r hr)
 
 /-- the history of F3 under the proposed code: the hypotheses hold and both runs are transparent -/
 example :
@@ -203,9 +205,9 @@ example :
     let t0 : Tree := [(mkInput "t.c" [("x", 1, 1), ("!", 1, 25)]).withPathPrefix]
     let evs := [Event.run showAll, .edit (shiftLines "t.c".toList 256), .run showAll]
     (∀ r ∈ runsOf t0 evs, ∀ i ∈ r.2, PathPrefixed i) ∧ (∀ r ∈ runsOf t0 evs, (r.2.map (·.path)).Nodup)
-    ∧ (∀ r ∈ runsOf t0 evs, MacroFree W r.1 r.2)
-    ∧ (execCached W [] t0 evs).map (·.perFile.flatten.map (·.line)) = [[1], [257]] := by
-  refine ⟨by decide +kernel, by decide +kernel, by decide +kernel, by decide +kernel⟩
+    ∧ (∀ r ∈ runsOf t0 evs, MacroFree W r.1 r.2) ∧ (∀ r ∈ cachedRuns W ([], []) t0 evs, SummFree W r.1 r.2)
+    ∧ (execCached W ([], []) t0 evs).map (·.perFile.flatten.map (·.line)) = [[1], [257]] := by
+  refine ⟨by decide +kernel, by decide +kernel, by decide +kernel, by decide +kernel, by decide +kernel⟩
 
 /-! ## what the code composes today (regenerated from the source on every run) -/
 
